@@ -15,7 +15,8 @@ from ..common import Outcome, Violation
 from . import conn
 
 PID = "C01"
-BAD = ("leaf_table", "observables", "partition", "leaf_parameters", "netlist_has_no_top", "netlist_top_ports", "netlist_arity", "netlist_partition")
+BAD = ("leaf_table", "observables", "partition", "leaf_parameters", "netlist_has_no_top", "netlist_top_ports", "netlist_arity", "netlist_partition",
+       "spectre_netlist_has_no_top", "spectre_netlist_top_ports", "spectre_netlist_arity", "spectre_netlist_partition")
 
 
 def term_kinds(D):
@@ -89,6 +90,8 @@ def run(tier, seed, replay_file=None):
             o.cover["ok_leaf_with_parameters"] = o.cover.get("ok_leaf_with_parameters", 0) + 1
         if "N" in ev:
             o.cover["netlist_read_back"] = o.cover.get("netlist_read_back", 0) + 1
+        if "N2" in ev:
+            o.cover["spectre_netlist_read_back"] = o.cover.get("spectre_netlist_read_back", 0) + 1
         if c in ("ok_valid", "ok_lenient"):
             nt += 1
             for k in term_kinds(ev["D"]):
@@ -100,7 +103,7 @@ def run(tier, seed, replay_file=None):
     o.distinct_nontrivial = nt
     o.exhaustive = tier == "thorough"
     o.required_cover = ["ok_valid", "ok_slice_of_cat", "ok_slice_of_slice", "ok_cat_of_slice", "ok_pref", "ok_nc", "ok_bund", "ok_bref", "ok_anon",
-                        "ok_kind_array", "ok_kind_pair", "ok_slice_of_pref", "ok_anon_of_bref", "ok_anon_of_pref", "ok_anon_of_anon", "fam_U_hier", "netlist_read_back", "ok_leaf_with_parameters"]
+                        "ok_kind_array", "ok_kind_pair", "ok_slice_of_pref", "ok_anon_of_bref", "ok_anon_of_pref", "ok_anon_of_anon", "fam_U_hier", "netlist_read_back", "spectre_netlist_read_back", "ok_leaf_with_parameters"]
     rnd = random.Random(seed)
     oks = [t for t, (ok, c) in verdicts.items() if c.startswith("ok_valid")]
     for tid in rnd.sample(oks, min(2, len(oks))):
